@@ -65,6 +65,13 @@ def memo_check(ctx, rule, crate, crs, tag=""):
                         why = "a non-error path from the provider call reaches return without inserting into %s" % field
                         continue
                     ok = True
+            # what is stored is the provider's answer: every insert into the table on the miss path comes after the provider call
+            # (seed C20-15: sort_candidates skipped for locked packages, the unsorted list is cached)
+            if len(sites) == 1:
+                dom = b.dominators()
+                for ii, it in inserts:
+                    ctx.ob(rule + tag, b.key, "stored-value-comes-after-the-provider-call:%s" % name, i in dom.get(ii, set()) or i == ii, where_call(b, ii),
+                           "the insert into %s is dominated by the provider call whose answer it stores" % field)
             ctx.ob(rule + tag, b.key, "memo:%s" % name, ok, where_call(b, i),
                    ("provider result memoised in %s under the looked-up key" % field) if ok else why)
     table_writers(ctx, rule, crate, tag)
